@@ -87,6 +87,25 @@ impl Pool {
             Pool::Basic(p) => p.allocate().map(|n| Blk::Raw(n.as_ptr() as usize, size)).map_err(|e| e.to_string()),
         }
     }
+    /// The other entry points that hand out blocks: hinted and bulk allocation.
+    fn alloc_variant(&self, size: usize, variant: u64) -> Result<Vec<Blk>, String> {
+        match (self, variant % 4) {
+            (Pool::Secure(p), 1) => p.allocate_with_hint(true).map(|b| vec![Blk::Secure(b)]).map_err(|e| e.to_string()),
+            (Pool::Secure(p), 2) => p.allocate_with_hint(false).map(|b| vec![Blk::Secure(b)]).map_err(|e| e.to_string()),
+            (Pool::Secure(p), 3) => {
+                let c = p.config().chunk_size;
+                p.allocate_bulk_with_prefetch(&[c, c]).map(|v| v.into_iter().map(Blk::Secure).collect()).map_err(|e| e.to_string())
+            }
+            (Pool::LockFree(p), 3) => p.allocate_bulk_simd(&[size, size]).map(|v| v.into_iter().map(|n| Blk::Raw(n.as_ptr() as usize, size)).collect()).map_err(|e| e.to_string()),
+            _ => self.alloc(size).map(|b| vec![b]),
+        }
+    }
+    fn free_variant(&self, b: Blk, variant: u64) -> Result<(), String> {
+        match (self, b) {
+            (Pool::LockFree(p), Blk::Raw(a, l)) if variant % 2 == 1 => p.deallocate_with_zero(NonNull::new(a as *mut u8).unwrap(), l).map_err(|e| e.to_string()),
+            (_, b) => self.free(b),
+        }
+    }
     fn free(&self, b: Blk) -> Result<(), String> {
         match (self, b) {
             (_, Blk::Secure(g)) => {
@@ -140,6 +159,7 @@ struct Ledger {
     /// allocation serial: block names in events are "b<serial of the allocation>", never addresses
     next_id: usize,
     allocs_ok: u64,
+    bulk_errs: u64,
     allocs_err: u64,
     frees_ok: u64,
     frees_err: u64,
@@ -203,28 +223,36 @@ struct PoolScenario {
 }
 
 const SIZES: [usize; 2] = [16, 32];
+/// size pairs for the pools that take a size per request (one pair per run)
+/// (the last two pairs fall into one bin of LockFreeMemoryPool - 144 and 256 - without both being the bin size)
+const SIZE_PAIRS: [[usize; 2]; 7] = [[16, 32], [8, 64], [24, 40], [64, 128], [250, 300], [136, 144], [250, 256]];
 
-fn build_pool(kind: Kind, cfg: &zsim_core::Chan) -> (Pool, String) {
+fn build_pool(kind: Kind, cfg: &zsim_core::Chan, low_retries: bool) -> (Pool, String) {
     match kind {
         Kind::Secure => {
             let cache = *cfg.pick(&[0usize, 0, 1, 2, 4]);
             let mut c = SecurePoolConfig::new(32, 64, 8).with_local_cache_size(cache);
             c.enable_huge_pages = false;
             c.enable_numa_awareness = false;
-            c.enable_hot_cold_separation = false;
-            (Pool::Secure(SecureMemoryPool::new(c).expect("secure pool")), format!("chunk=32 local_cache_size={}", cache))
+            let hot_cold = cfg.chance(1, 3);
+            c.enable_hot_cold_separation = hot_cold;
+            (Pool::Secure(SecureMemoryPool::new(c).expect("secure pool")), format!("chunk=32 local_cache_size={} hot_cold_separation={}", cache, hot_cold))
         }
         Kind::LockFree => {
-            let c = LockFreePoolConfig { memory_size: 4096, backoff_strategy: BackoffStrategy::None, enable_huge_pages: false, enable_numa_awareness: false, max_cas_retries: 64, ..Default::default() };
-            (Pool::LockFree(Arc::new(LockFreeMemoryPool::new(c).expect("lockfree pool"))), "memory=4096 backoff=None".into())
+            let mem = *cfg.pick(&[4096usize, 4096, 1024, 256]);
+            let retries = if low_retries { *cfg.pick(&[1u32, 2]) } else { *cfg.pick(&[64u32, 64, 1, 2]) };
+            let c = LockFreePoolConfig { memory_size: mem, backoff_strategy: BackoffStrategy::None, enable_huge_pages: false, enable_numa_awareness: false, max_cas_retries: retries, ..Default::default() };
+            (Pool::LockFree(Arc::new(LockFreeMemoryPool::new(c).expect("lockfree pool"))), format!("memory={} backoff=None max_cas_retries={}", mem, retries))
         }
         Kind::FiveLockFree => {
-            let c = FiveLevelPoolConfig { initial_capacity: 4096, max_fast_block_size: 256, enable_huge_pages: false, enable_numa_awareness: false, ..Default::default() };
-            (Pool::FiveLockFree(Arc::new(LockFreePool::new(c).expect("five lock-free"))), "capacity=4096".into())
+            let cap = *cfg.pick(&[4096usize, 4096, 1024, 256]);
+            let c = FiveLevelPoolConfig { initial_capacity: cap, max_fast_block_size: 256, enable_huge_pages: false, enable_numa_awareness: false, ..Default::default() };
+            (Pool::FiveLockFree(Arc::new(LockFreePool::new(c).expect("five lock-free"))), format!("capacity={}", cap))
         }
         Kind::FiveMutex => {
-            let c = FiveLevelPoolConfig { initial_capacity: 4096, max_fast_block_size: 256, enable_huge_pages: false, enable_numa_awareness: false, ..Default::default() };
-            (Pool::FiveMutex(Arc::new(MutexBasedPool::new(c).expect("five mutex"))), "capacity=4096".into())
+            let cap = *cfg.pick(&[4096usize, 4096, 1024, 256]);
+            let c = FiveLevelPoolConfig { initial_capacity: cap, max_fast_block_size: 256, enable_huge_pages: false, enable_numa_awareness: false, ..Default::default() };
+            (Pool::FiveMutex(Arc::new(MutexBasedPool::new(c).expect("five mutex"))), format!("capacity={}", cap))
         }
         Kind::Fixed => {
             let blocks = *cfg.pick(&[3usize, 4, 8]);
@@ -254,7 +282,11 @@ impl Scenario for PoolScenario {
         let cfg = cx.src.chan("cfg");
         let nthreads = 2 + cfg.biased_zero(2, 1, 3) as usize;
         let e1cfg = e1::draw_cfg(&cfg, 12000);
-        let (pool, desc) = build_pool(kind, &cfg);
+        // sizes first: two sizes of one bin are interesting together with a small retry budget
+        // (the fall-back that carves new memory under contention) and with both sizes in use
+        let sizes_run: [usize; 2] = if matches!(kind, Kind::LockFree | Kind::FiveLockFree | Kind::FiveMutex) { SIZE_PAIRS[cfg.biased_zero(7, 1, 2) as usize] } else { SIZES };
+        let same_bin = kind == Kind::LockFree && (sizes_run == [136, 144] || sizes_run == [250, 256]);
+        let (pool, desc) = build_pool(kind, &cfg, same_bin);
         cx.ev(format!("pool {} {} threads={}", kind.name(), desc, nthreads));
         let secure_preseed_extra = if kind == Kind::Secure { 4 } else { 0 };
         let ledger = Arc::new(Mutex::new(Ledger::default()));
@@ -267,16 +299,19 @@ impl Scenario for PoolScenario {
             Kind::Basic => "MemoryPool.ownership",
         };
         // pre-seed the free structure with 0..3 blocks of one class (allocated and freed before the threads start)
-        let preseed = cfg.below(4) as usize + secure_preseed_extra;
-        let size_fixed = SIZES[cfg.below(2) as usize];
-        let one_class = cfg.chance(2, 3);
+        let preseed_planned = cfg.below(4) as usize + secure_preseed_extra;
+        let mut preseed = 0usize;
+        let size_fixed = sizes_run[cfg.below(2) as usize];
+        let one_class = cfg.chance(2, 3) && !same_bin;
         {
             let mut tmp = vec![];
-            for _ in 0..preseed {
+            for _ in 0..preseed_planned {
                 if let Ok(b) = pool.alloc(size_fixed) {
                     tmp.push(b);
                 }
             }
+            // (a small pool may refuse some of them)
+            preseed = tmp.len();
             let mut l = ledger.lock().unwrap();
             for b in &tmp {
                 let (a, _, _) = b.extent(size_fixed);
@@ -288,7 +323,7 @@ impl Scenario for PoolScenario {
                 let _ = pool.free(b);
             }
         }
-        cx.ev(format!("pre-seeded: {} block(s) of {} bytes allocated and freed before the threads start; sizes used: {}", preseed, size_fixed, if one_class { format!("{}", size_fixed) } else { "16,32".into() }));
+        cx.ev(format!("pre-seeded: {} block(s) of {} bytes allocated and freed before the threads start; sizes used: {}", preseed, size_fixed, if one_class { format!("{}", size_fixed) } else { format!("{},{}", sizes_run[0], sizes_run[1]) }));
         let aba_shape = cfg.chance(1, 3);
         if aba_shape {
             cx.cell(format!("{}/aba-shaped", kind.name()));
@@ -326,7 +361,7 @@ impl Scenario for PoolScenario {
             let mailbox = mailbox.clone();
             bodies.push(Box::new(move |me: usize| {
                 let mut held: Vec<(Blk, usize)> = vec![]; // (block, requested size)
-                let do_free = |b: Blk, req: usize, why: &str| {
+                let do_free = |b: Blk, req: usize, why: &str, variant: u64| {
                     let (addr, _, _) = b.extent(req);
                     let ord = {
                         let mut l = ledger.lock().unwrap();
@@ -336,7 +371,7 @@ impl Scenario for PoolScenario {
                         (l.ordinal(addr), id)
                     };
                     let (ord, id) = ord;
-                    let r = pool.free(b);
+                    let r = pool.free_variant(b, variant);
                     let mut l = ledger.lock().unwrap();
                     match r {
                         Ok(()) => {
@@ -363,34 +398,54 @@ impl Scenario for PoolScenario {
                     }
                     match o[0] % 4 {
                         0 | 1 => {
-                            let size = if one_class { size_fixed } else { SIZES[(o[1] % 2) as usize] };
-                            let r = pool.alloc(size);
+                            let size = if one_class { size_fixed } else { sizes_run[(o[1] % 2) as usize] };
+                            let r = pool.alloc_variant(size, o[2]);
                             match r {
-                                Ok(b) => {
-                                    let (addr, len, mem) = b.extent(size);
-                                    let serial = {
-                                        let mut l = ledger.lock().unwrap();
-                                        let s = l.on_alloc(me, addr, len, mem, site_own);
-                                        let id = l.next_id;
-                                        l.events.push(format!("t{} alloc({}) -> b{}", me, size, id));
-                                        s
-                                    };
-                                    if mem {
-                                        unsafe { std::ptr::write_bytes(addr as *mut u8, serial, len) };
+                                Ok(bs) => {
+                                    let bulk = bs.len() > 1;
+                                    for b in bs {
+                                        let (addr, len, mem) = b.extent(size);
+                                        let serial = {
+                                            let mut l = ledger.lock().unwrap();
+                                            let s = l.on_alloc(me, addr, len, mem, site_own);
+                                            let id = l.next_id;
+                                            l.events.push(format!("t{} alloc({}){} -> b{}", me, size, if bulk { " [bulk]" } else { "" }, id));
+                                            s
+                                        };
+                                        if mem {
+                                            unsafe { std::ptr::write_bytes(addr as *mut u8, serial, len) };
+                                        }
+                                        held.push((b, size));
                                     }
-                                    held.push((b, size));
                                 }
                                 Err(e) => {
                                     let mut l = ledger.lock().unwrap();
                                     l.allocs_err += 1;
-                                    l.events.push(format!("t{} alloc({}) -> Err({})", me, size, e.chars().take(40).collect::<String>()));
+                                    let bulk = o[2] % 4 == 3 && matches!(pool, Pool::Secure(_) | Pool::LockFree(_));
+                                    l.events.push(format!("t{} alloc({}){} -> Err({})", me, size, if bulk { " [bulk of 2]" } else { "" }, e.chars().take(40).collect::<String>()));
+                                    if bulk {
+                                        l.bulk_errs += 1;
+                                    }
                                 }
                             }
                         }
                         2 => {
                             if !held.is_empty() {
                                 let (b, req) = held.remove((o[1] as usize) % held.len());
-                                do_free(b, req, "");
+                                do_free(b, req, "", o[2]);
+                            }
+                        }
+                        _ if o[3] % 4 == 0 && matches!(pool, Pool::Secure(_)) => {
+                            // integrity walk over the allocation table while other threads allocate and free
+                            if let Pool::Secure(p) = &pool {
+                                let r = p.validate();
+                                let mut l = ledger.lock().unwrap();
+                                l.events.push(format!("t{} validate() -> {}", me, if r.is_ok() { "Ok" } else { "Err" }));
+                                if let Err(e) = r {
+                                    if l.pending.is_none() {
+                                        l.pending = Some(Violation::new("pool_reports_corruption", "SecureMemoryPool.validate", format!("validate() failed although every block is used correctly: {}", e)));
+                                    }
+                                }
                             }
                         }
                         _ => {
@@ -412,7 +467,7 @@ impl Scenario for PoolScenario {
                 }
                 // wind down: free everything still held (blocks left in a mailbox are freed by the main thread)
                 while let Some((b, req)) = held.pop() {
-                    do_free(b, req, " (end)");
+                    do_free(b, req, " (end)", 0);
                 }
             }));
         }
@@ -433,6 +488,11 @@ impl Scenario for PoolScenario {
             let l = ledger.lock().unwrap();
             for e in &l.events {
                 cx.ev(e);
+            }
+        }
+        if std::env::var_os("ZSIM_DEBUG_SCHED").is_some() {
+            for s in e1::render_log(&res.log, 400) {
+                cx.ev(format!("  sched {}", s));
             }
         }
         cx.trace.feed(res.hash);
@@ -492,6 +552,10 @@ impl Scenario for PoolScenario {
                     cx.violate("counters_do_not_add_up", &site_cnt, format!("pool_hits {} + pool_misses {} != alloc_count {}", s.pool_hits, s.pool_misses, s.alloc_count));
                     return;
                 }
+                if let Err(e) = p.validate() {
+                    cx.violate("pool_reports_corruption", "SecureMemoryPool.validate", format!("validate() at quiescence failed: {}", e));
+                    return;
+                }
                 if s.double_free_detected != 0 || s.corruption_detected != 0 {
                     cx.violate("pool_reports_corruption", &site_cnt, format!("double_free_detected={} corruption_detected={} although every block was freed exactly once", s.double_free_detected, s.corruption_detected));
                     return;
@@ -500,11 +564,15 @@ impl Scenario for PoolScenario {
             Pool::LockFree(p) => {
                 if let Some(s) = p.stats() {
                     use std::sync::atomic::Ordering::Relaxed;
-                    let fd = s.fast_deallocs.load(Relaxed);
-                    if fd != frees_ok {
-                        cx.violate("counters_do_not_add_up", &site_cnt, format!("fast_deallocs={} but {} frees succeeded", fd, frees_ok));
+                    let (fd, sd) = (s.fast_deallocs.load(Relaxed), s.skip_deallocs.load(Relaxed));
+                    // a bulk request that fails part-way gives back the one block it had taken: that is
+                    // a deallocation the caller did not make (at most one per failed bulk of 2)
+                    let bulk_errs = ledger.lock().unwrap().bulk_errs;
+                    if fd + sd < frees_ok || fd + sd > frees_ok + bulk_errs {
+                        cx.violate("counters_do_not_add_up", &site_cnt, format!("fast_deallocs={} + skip_deallocs={} but {} frees succeeded ({} bulk requests failed)", fd, sd, frees_ok, bulk_errs));
                         return;
                     }
+                    cx.probe_n("lockfree_skip_list_frees", sd);
                 }
             }
             Pool::Fixed(p) => {
@@ -529,12 +597,15 @@ impl Scenario for PoolScenario {
         // ---- drain: the free structures are well formed and serve every freed block at most once
         let site_drain = format!("{}.drain", kind.name());
         let known_blocks = ledger.lock().unwrap().ordinals.len();
-        let sizes: Vec<usize> = if one_class { vec![size_fixed] } else { SIZES.to_vec() };
+        let sizes: Vec<usize> = if one_class { vec![size_fixed] } else { sizes_run.to_vec() };
         let mut drained: Vec<Blk> = vec![];
         let mut recovered = 0usize;
+        // (blocks that a failed bulk request took and gave back are in the free structure without
+        // the ledger ever having seen them: they look fresh)
+        let unseen = ledger.lock().unwrap().bulk_errs as usize;
         'drain: for &size in &sizes {
             let mut fresh_seen = 0;
-            for _ in 0..(known_blocks + 3) {
+            for _ in 0..(known_blocks + 3 + unseen) {
                 match pool.alloc(size) {
                     Ok(b) => {
                         let (addr, len, mem) = b.extent(size);
@@ -556,7 +627,7 @@ impl Scenario for PoolScenario {
                             recovered += 1;
                         } else {
                             fresh_seen += 1;
-                            if fresh_seen >= 2 {
+                            if fresh_seen >= 2 + unseen {
                                 break;
                             }
                         }
@@ -576,6 +647,9 @@ impl Scenario for PoolScenario {
         // lost blocks: only for pools whose free structure is global and is searched before fresh memory is carved
         if !cx.failed() && frees_err == 0 && matches!(kind, Kind::LockFree | Kind::FiveLockFree | Kind::FiveMutex) && one_class {
             let freed_now = ledger.lock().unwrap().freed.len();
+            // requests above the five-level pools' max_fast_block_size (256) take the "huge" path
+            let huge = matches!(kind, Kind::FiveLockFree | Kind::FiveMutex) && (size_fixed + 7) / 8 * 8 > 256;
+            let site_drain = if huge { format!("{}.huge", site_drain) } else { site_drain.clone() };
             if freed_now > 0 {
                 cx.violate("block_lost", &site_drain, format!("{} freed block(s) were never served again although the class was drained until fresh memory appeared", freed_now));
             }
